@@ -303,22 +303,29 @@ pub fn same_final_jobs(need: Need, k: usize) -> Vec<Job> {
   jobs
 }
 
-/// K1: every key code the tool knows, once as a key outside the layout and once as the output of a mapping, next to a
-/// no-repeat mapping - the classification of keys (standard modifier or not) checked for each code, not assumed by class
+/// K1..K4: every key code the tool knows in every role a layout gives a key, next to a no-repeat mapping - the
+/// classification of keys (standard modifier or not) and any other per-key treatment is checked for each code, not
+/// assumed by class.  K1: k as the output of a mapping and as a foreign key; K2: k as a single-key trigger;
+/// K3: k as chord modifier and absorbed key; K4: k as the key of a Special no-repeat mapping and in its repeat chord.
 pub fn every_key_jobs(need: Need) -> Vec<Job> {
   use crate::keys::{Mapping, Repeat};
   use num_traits::FromPrimitive;
   use KeyCode::*;
   let mut jobs = vec![];
+  let m = |from: &[KeyCode], to: &[KeyCode], repeat: Repeat, absorbing: &[KeyCode]| Mapping { from: from.to_vec(), to: to.to_vec(), repeat, absorbing: absorbing.to_vec() };
   for code in 0u16..0x300 {
     let k = match KeyCode::from_u16(code) { Some(k) => k, None => continue };
-    if k == A || k == C { continue; }
-    let layout = Layout { mappings: vec![
-      Mapping { from: vec![A], to: vec![A], repeat: Repeat::Disabled, absorbing: vec![] },
-      Mapping { from: vec![C], to: vec![k], repeat: Repeat::Normal, absorbing: vec![] },
-    ] };
-    if !layout_ok(&layout, need) { continue; }
-    jobs.push(Job::Fixed { name: format!("K1-{:?}", k), layout, alphabet: vec![A, C, k], n: 3, alpha_rule: "A, C and the key code in question" });
+    if k == A || k == C || k == D || k == LEFTSHIFT { continue; }
+    let forms: Vec<(&str, Layout, Vec<KeyCode>)> = vec![
+      ("K1", Layout { mappings: vec![m(&[A], &[A], Repeat::Disabled, &[]), m(&[C], &[k], Repeat::Normal, &[])] }, vec![A, C, k]),
+      ("K2", Layout { mappings: vec![m(&[A], &[A], Repeat::Disabled, &[]), m(&[k], &[D], Repeat::Normal, &[])] }, vec![A, k, D]),
+      ("K3", Layout { mappings: vec![m(&[A], &[A], Repeat::Disabled, &[]), m(&[k, C], &[D], Repeat::Normal, &[k])] }, vec![A, C, k]),
+      ("K4", Layout { mappings: vec![m(&[k], &[k], Repeat::Special { keys: vec![LEFTSHIFT, k], delay_ms: 100, interval_ms: 10 }, &[]), m(&[C], &[C], Repeat::Normal, &[])] }, vec![k, C, LEFTSHIFT]),
+    ];
+    for (tag, layout, alphabet) in forms {
+      if !layout_ok(&layout, need) { continue; }
+      jobs.push(Job::Fixed { name: format!("{}-{:?}", tag, k), layout, alphabet, n: 3, alpha_rule: "the keys of the layout and the key code in question" });
+    }
   }
   jobs
 }
@@ -351,9 +358,9 @@ pub fn run(ctx: &Ctx) -> Outcome {
     gen_rules.push(json!({"family": "S4/S5", "what": "four (and five) mappings ending in the same key A, triggers drawn with repetition from [A],[CAPSLOCK,A],[LEFTSHIFT,A],[B,A], distinct outputs", "layouts": sj.len(), "bound_keys_held": 4, "alphabet": ["A", "B", "CAPSLOCK", "LEFTSHIFT"]}));
     jobs.extend(sj);
   }
-  if matches!(id, "C01" | "C02" | "C05" | "C06" | "C07" | "C19" | "AALL") {
+  {
     let kj = every_key_jobs(plan.need);
-    gen_rules.push(json!({"family": "K1", "what": "for every key code k the tool knows: A->[A] Disabled, C->[k]; alphabet A, C, k", "layouts": kj.len(), "bound_keys_held": 3}));
+    gen_rules.push(json!({"family": "K1-K4", "what": "for every key code k the tool knows (all but the four fixed keys of the forms): K1 A->[A] Disabled, C->[k]; K2 A->[A] Disabled, k->[D]; K3 A->[A] Disabled, [k,C]->[D] absorbing [k]; K4 k->[k] Special{[LEFTSHIFT,k],100,10}, C->[C]; alphabet = the three keys of the form; forms the property's quantifier excludes are left out", "layouts": kj.len(), "bound_keys_held": 3}));
     jobs.extend(kj);
   }
   // big fixed layouts first so that they do not become the tail
